@@ -126,6 +126,8 @@ type SolverStats struct {
 	Unsat     int64
 	Unknown   int64
 	Errors    int64
+	CrossBoth int64 // thorough tier: discharged assertions confirmed by both solver families
+	CrossOne  int64 // ... where the second family did not answer within its budget
 	TimeNs    map[string]*int64
 	ByBackend map[string]*int64
 	mu        sync.Mutex
